@@ -68,6 +68,16 @@ impl<'a, 'b> AttrList for Vec<(&'a str, &'b String)> {
         Seq::new(self@.len(), |i: int| (self@[i].0@, self@[i].1@))
     }
 }
+impl<'a> AttrList for Vec<(&'a str, String)> {
+    open spec fn attrs(&self) -> Seq<(Seq<char>, Seq<char>)> {
+        Seq::new(self@.len(), |i: int| (self@[i].0@, self@[i].1@))
+    }
+}
+impl AttrList for Vec<(String, String)> {
+    open spec fn attrs(&self) -> Seq<(Seq<char>, Seq<char>)> {
+        Seq::new(self@.len(), |i: int| (self@[i].0@, self@[i].1@))
+    }
+}
 impl<'a, 'b, const N: usize> AttrList for [(&'a str, &'b str); N] {
     open spec fn attrs(&self) -> Seq<(Seq<char>, Seq<char>)> {
         Seq::new(self@.len(), |i: int| (self@[i].0@, self@[i].1@))
